@@ -325,6 +325,15 @@ pub fn judge(rep: &mut Reporter, h: &HScn) {
                 if pending.iter().any(|p| p.is_some()) {
                     j.rep.count("fs_hist_avail_with_dead_pooled_connection");
                 }
+                // the situations in which only an immediate reconnect saves the lookup
+                if pending.iter().flatten().any(|c| matches!(*c, "write-fails" | "no-reply" | "partial")) {
+                    j.rep.count("fs_hist_avail_death_surfaces_in_lookup");
+                }
+                if let (true, Some(s)) = (*exact, *server) {
+                    if pending[s].is_some() && matches!(scn.family.as_str(), "history-silent-other" | "history-expensive-other") {
+                        j.rep.count("fs_hist_avail_exact_dead_pooled_then_trap_server");
+                    }
+                }
                 if !good {
                     report_avail(&mut j, h, k, &kind);
                 }
@@ -584,32 +593,33 @@ fn minimize(h: &HScn, k: usize, kind: &str) -> HScn {
 fn observed_classes(log: &[FEv], i0: usize, i1: usize) -> Vec<String> {
     let mut v: BTreeSet<String> = BTreeSet::new();
     let i1 = i1.min(log.len());
-    for (ii, inj) in log.iter().enumerate().take(i1).filter(|(_, e)| e.kind == "tcp-inject") {
-        let Some(told) = log.iter().enumerate().skip(ii).find(|(_, e)| e.id == inj.id && TOLD.contains(&e.kind)).map(|(i, _)| i) else {
-            continue;
-        };
-        if told >= i1 {
+    let i0 = i0.min(i1);
+    // every connection (injected or closed by its server's own script) by the FIRST event that
+    // told hickory about its death
+    let mut seen: BTreeSet<u32> = BTreeSet::new();
+    for (told, e) in log.iter().enumerate().take(i1).filter(|(_, e)| TOLD.contains(&e.kind)) {
+        if !seen.insert(e.id) {
             continue;
         }
+        let what = log[..told].iter().filter(|x| x.kind == "tcp-inject" && x.id == e.id).last().map(|x| x.what).unwrap_or("");
         if told < i0 {
-            let replaced = log[told..i0].iter().any(|e| e.kind == "tcp-connect" && e.server == inj.server);
+            let replaced = log[told..i0].iter().any(|x| x.kind == "tcp-connect" && x.server == e.server);
             if !replaced {
                 v.insert("idle-closed".into());
             }
-            continue;
-        }
-        if log[told].kind == "tcp-write-error" {
+        } else if e.kind == "tcp-write-error" {
             v.insert("write-fails".into());
-        } else if log[i0..told].iter().any(|e| e.kind == "tcp-query" && e.id == inj.id) {
-            v.insert(match inj.what {
-                "no-reply" | "partial" => inj.what.to_string(),
+        } else if log[i0..told].iter().any(|x| x.kind == "tcp-query" && x.id == e.id) {
+            v.insert(match what {
+                "no-reply" | "partial" => what.to_string(),
+                // (also a server whose own script closes instead of replying)
                 _ => "closed-with-request-outstanding".to_string(),
             });
         } else {
             v.insert("idle-closed".into());
         }
     }
-    for e in log[i0.min(i1)..i1].iter().filter(|e| e.kind == "udp-send-error" && e.what.starts_with("injected")) {
+    for e in log[i0..i1].iter().filter(|e| e.kind == "udp-send-error" && e.what.starts_with("injected")) {
         v.insert(if e.what.ends_with("reset") { "udp-send-reset".into() } else { "udp-send-other".into() });
     }
     v.into_iter().collect()
